@@ -196,6 +196,13 @@ class Real:
             elif mode == 'aexit':
                 async with g:
                     self.exiting = True
+            elif mode == 'aexit_body':
+                # the joining task is still in the BODY of `async with group` (C12: that is where the cancellation lands)
+                async with g:
+                    try:
+                        await self.loop.create_future()
+                    finally:
+                        self.exiting = True
             else:
                 try:
                     async with g:
@@ -460,7 +467,7 @@ def snap_term(s):
 
 
 def coq_case(case, obs):
-    if any(a[0] in ('cancelrem', 'abandonrem') for a in case['actions']):
+    if any(a[0] in ('cancelrem', 'abandonrem') for a in case['actions']) or case['mode'] not in MODET:
         return None
     out = []
     for l, sn in obs['trace']:
